@@ -797,7 +797,7 @@ func collectFacts(dir string) (*factSet, error) {
 		"standardRenderer.render", "standardRenderer.flush", "standardRenderer.stop", "standardRenderer.kill",
 		"standardRenderer.clearScreen", "standardRenderer.enterAltScreen", "standardRenderer.exitAltScreen",
 		"readAnsiInputs", "detectOneMsg", "detectSequence", "detectBracketedPaste", "isIncompleteEvent",
-		"parseSGRMouseEvent", "parseX10MouseEvent", "parseMouseButton")
+		"parseSGRMouseEvent", "parseX10MouseEvent", "parseMouseButton", "Key.String")
 	fs.signature("Program.Run")
 	// the method set of the wrapper ExecProcess hands to exec: Run (and everything else) must be
 	// os/exec's own, promoted from the embedded *exec.Cmd; only the three Set… methods are the library's
